@@ -54,7 +54,7 @@ def run(ctx) -> None:
   ctx.rule('R3', 'created trials: id = max_trial_id()+1 read per create, name from the same id', 2)
   ctx.rule('R4', 'surplus algorithm output is stored as REQUESTED on every path to the final return', 1)
   ctx.rule('R5', 'pop() loops test their list for emptiness', 2)
-  ctx.import_rules('C07', {'R7', 'R8'}, 'R6', 'fresh ids and sticky hand-out rest on the datastores: max_trial_id is a maximum, list_trials filters by exact study key')
+  ctx.import_rules('C07', {'R7', 'R8', 'R9'}, 'R6', 'fresh ids and sticky hand-out rest on the datastores: max_trial_id is a maximum, list_trials filters by exact study key')
   fi = svc.rpcs.get('SuggestTrials')
   if fi is None:
     raise AnalysisError('SuggestTrials not found')
@@ -237,44 +237,145 @@ def run(ctx) -> None:
     raise AnalysisError(f'only {n_create} create_trial sites found')
 
   # ------------------------------------------------------------------ R4, R5
-  pops = []
+  r45_handout(ctx, svc, fi, g, dom, prov, algo, out_lists)
+
+
+def _len_of(e: ast.AST, names: Set[str]) -> bool:
+  return isinstance(e, ast.Call) and dotted(e.func) == 'len' and len(e.args) == 1 and isinstance(e.args[0], ast.Name) \
+      and e.args[0].id in names
+
+
+def _is_missing_count(e: ast.AST, out_lists: Set[str]) -> bool:
+  """request.suggestion_count - len(<hand-out list>)"""
+  return isinstance(e, ast.BinOp) and isinstance(e.op, ast.Sub) and dotted(e.left) == 'request.suggestion_count' \
+      and _len_of(e.right, out_lists)
+
+
+def _bound_test(test: ast.AST, out_lists: Set[str]) -> bool:
+  """loop test contains  request.suggestion_count > len(out)  (or the mirrored form)."""
+  for c in ast.walk(test):
+    if isinstance(c, ast.Compare) and len(c.ops) == 1:
+      l, r, op = c.left, c.comparators[0], c.ops[0]
+      if dotted(l) == 'request.suggestion_count' and _len_of(r, out_lists) and isinstance(op, ast.Gt):
+        return True
+      if dotted(r) == 'request.suggestion_count' and _len_of(l, out_lists) and isinstance(op, ast.Lt):
+        return True
+  return False
+
+
+def r45_handout(ctx, svc, fi, g, dom, prov, algo, out_lists) -> None:
+  """Hand-out loops are bounded by the *current* missing count; algorithm output is partitioned into
+  handed-out and queued parts; the queue loop is on every normal path from the algorithm to the return."""
+  rd = prov.rd
+  # lists holding algorithm output: provenance reaches the .Suggest(...) call
+  algo_calls = [c for c in flow.node_calls(algo[0]) if isinstance(c.func, ast.Attribute) and c.func.attr == 'Suggest']
+
+  def from_algo(name_node: ast.Name, node) -> bool:
+    return any(k == 'call' and v in algo_calls for k, v in prov.origins(name_node, node))
+
+  appenders = [n for n in g.nodes for c in flow.node_calls(n)
+               if isinstance(c.func, ast.Attribute) and c.func.attr in ('append', 'extend') and isinstance(c.func.value, ast.Name)
+               and c.func.value.id in out_lists]
+  handouts = []  # (loop ast, list name, form, bound expr, node)
   for n in g.nodes:
-    for c in flow.node_calls(n):
-      if isinstance(c.func, ast.Attribute) and c.func.attr == 'pop' and not c.args \
-          and isinstance(c.func.value, ast.Name):
-        pops.append((n, c.func.value.id))
+    if n.kind == 'stmt' and isinstance(n.ast, ast.Assign) and isinstance(n.ast.value, ast.Call) \
+        and isinstance(n.ast.value.func, ast.Attribute) and n.ast.value.func.attr == 'pop' \
+        and isinstance(n.ast.value.func.value, ast.Name) and n.loops:
+      lst = n.ast.value.func.value.id
+      handouts.append((n.loops[-1], lst, 'pop', None, n))
+    if n.kind == 'for' and any(a in g.reachable([n]) for a in appenders if a.loops and a.loops[-1] is n.ast):
+      it = n.ast.iter
+      if isinstance(it, ast.Subscript) and isinstance(it.value, ast.Name) and isinstance(it.slice, ast.Slice) \
+          and it.slice.lower is None and it.slice.upper is not None:
+        handouts.append((n.ast, it.value.id, 'slice', it.slice.upper, n))
+      elif isinstance(it, ast.Name):
+        handouts.append((n.ast, it.id, 'all', None, n))
+  if len(handouts) < 2:
+    raise AnalysisError(f'SuggestTrials: only {len(handouts)} hand-out loops recognised (pool and algorithm output)')
   helper = C06.OpTypestate.__new__(C06.OpTypestate)
-  for n, lst in pops:
-    ctx.check(C06.OpTypestate._pop_guarded(helper, n, lst), 'R5', f'{lst}.pop() at line {n.lineno}',
-              where(fi, n), 'loop condition tests the list for emptiness',
-              f'`{lst}.pop()` is not guarded by an emptiness test of `{lst}`: when fewer elements are '
-              'available than requested the call fails instead of handing out the short delivery',
-              construct=f'{lst}.pop', func=fi.qualname)
-  # remainder loop over the algorithm output list
-  algo_lists = {lst for n, lst in pops if algo[0].id in dom[n.id]}
+  algo_handout = None
+  for loop, lst, form, bound, n in handouts:
+    inst = f'hand-out loop over `{lst}` at line {loop.lineno}'
+    is_algo = any(isinstance(x, ast.Name) and x.id == lst and from_algo(x, n) for x in ast.walk(n.ast))
+    if is_algo:
+      algo_handout = (loop, lst, form, bound, n)
+    if form == 'pop':
+      ctx.check(C06.OpTypestate._pop_guarded(helper, n, lst), 'R5', f'{lst}.pop() at line {n.lineno}',
+                where(fi, n), 'loop condition tests the list for emptiness',
+                f'`{lst}.pop()` is not guarded by an emptiness test of `{lst}`: when fewer elements are '
+                'available than requested the call fails instead of handing out the short delivery',
+                construct=f'{lst}.pop', func=fi.qualname)
+      ok = isinstance(loop, ast.While) and _bound_test(loop.test, out_lists)
+      ctx.check(ok, 'R5', inst + ': bounded by the current missing count', where(fi, n),
+                'loop runs while request.suggestion_count > len(<hand-out list>)',
+                'the loop condition does not compare request.suggestion_count with the current length of the hand-out list: '
+                'more (or fewer) than the requested number of trials are handed out', construct=f'{lst}:bound', func=fi.qualname)
+    elif form == 'slice':
+      # the slice bound must be the missing count computed after the last append to the hand-out list
+      vals = []
+      if isinstance(bound, ast.Name):
+        defs = [d for d in rd.at(n, bound.id)]
+        vals = [(d.value, g.nodes[d.node_id]) for d in defs if d.node_id >= 0 and d.value is not None]
+        fresh_shape = bool(vals) and all(_is_missing_count(v, out_lists) for v, _ in vals)
+      else:
+        vals = [(bound, n)]
+        fresh_shape = _is_missing_count(bound, out_lists)
+      stale = None
+      for v, dn in vals:
+        if dn is n:
+          continue
+        after_def = g.reachable([dn])
+        for a in appenders:
+          if a in after_def and n in g.reachable([a]) and not (a.loops and a.loops[-1] is loop):
+            stale = a
+      ctx.check(fresh_shape and stale is None, 'R5', inst + ': bounded by the current missing count', where(fi, n),
+                'slice bound is request.suggestion_count - len(<hand-out list>) with no hand-out in between',
+                (f'the slice bound `{unparse(bound, 40)}` was computed before the hand-out list grew (append at line '
+                 f'{stale.lineno}): it still counts trials that were already filled from an earlier source, so the worker '
+                 'gets more than the requested number of trials and fewer surplus suggestions are queued') if stale is not None else
+                f'the slice bound `{unparse(bound, 40)}` is not request.suggestion_count - len(<hand-out list>)',
+                construct=f'{lst}:stale-bound', func=fi.qualname)
+    else:
+      ctx.bad('R5', inst + ': bounded by the current missing count', where(fi, n),
+              f'every element of `{lst}` is handed out, regardless of request.suggestion_count', construct=f'{lst}:unbounded',
+              func=fi.qualname)
+  if algo_handout is None:
+    raise AnalysisError('SuggestTrials: hand-out loop over the algorithm output not found')
+  hloop, lst, form, bound, hn = algo_handout
+  # R4: the remainder of the algorithm output is queued as REQUESTED
   ok4 = False
   detail = 'no loop over the remaining algorithm output stores it as REQUESTED'
-  for lst in algo_lists:
-    for n in g.nodes:
-      if n.kind == 'for' and isinstance(n.ast.iter, ast.Name) and n.ast.iter.id == lst \
-          and isinstance(n.ast.target, ast.Name):
-        v = n.ast.target.id
-        body = n.ast.body
-        creates = any(svc.ds_call(c) == 'create_trial' and c.args and isinstance(c.args[0], ast.Name)
-                      and c.args[0].id == v for st in body for c in flow.calls_in(st))
-        req = any(isinstance(st, ast.Assign) and any(dotted(t) == f'{v}.state' for t in st.targets)
-                  and (dotted(st.value) or '').endswith('.REQUESTED')
-                  for top in body for st in ast.walk(top))
-        # every path from the pop loop to the final (success) return passes this loop
-        pop_nodes = [pn for pn, l in pops if l == lst]
-        rets = [m for m, lab in g.exit.preds if pop_nodes and pop_nodes[0].id in dom[m.id]]
-        through = all(m not in g.reachable(pop_nodes, blocked=[n]) for m in rets)
-        if creates and req and through and rets:
-          ok4 = True
-        elif creates and req and not through:
-          detail = 'a path from the hand-out loop to the return bypasses the surplus loop'
+  succ_rets = [m for m, lab in g.exit.preds
+               if m in g.reachable([algo[0]], follow=lambda a, b, lab2: not (isinstance(lab2, tuple) and lab2 and lab2[0] == 'exc'))]
+  for n in g.nodes:
+    if n.kind != 'for' or not isinstance(n.ast.target, ast.Name) or n.ast is hloop:
+      continue
+    it = n.ast.iter
+    rest = None
+    if form == 'pop' and isinstance(it, ast.Name) and it.id == lst:
+      rest = 'whole list after the pops'
+    if form == 'slice' and isinstance(it, ast.Subscript) and isinstance(it.value, ast.Name) and it.value.id == lst \
+        and isinstance(it.slice, ast.Slice) and it.slice.upper is None and it.slice.lower is not None \
+        and unparse(it.slice.lower, 0) == unparse(bound, 0):
+      rest = 'complementary slice'
+    if rest is None:
+      continue
+    v = n.ast.target.id
+    body = n.ast.body
+    creates = any(svc.ds_call(c) == 'create_trial' and c.args and isinstance(c.args[0], ast.Name)
+                  and c.args[0].id == v for st in body for c in flow.calls_in(st))
+    req = any(isinstance(st, ast.Assign) and any(dotted(t) == f'{v}.state' for t in st.targets)
+              and (dotted(st.value) or '').endswith('.REQUESTED')
+              for top in body for st in ast.walk(top))
+    after = g.reachable([hn])
+    through = bool(succ_rets) and all(n.id in dom[m.id] for m in succ_rets if m in after)
+    if creates and req and through:
+      ok4 = True
+    elif creates and req:
+      detail = 'a normal path from the hand-out loop to a return bypasses the surplus loop'
   ctx.check(ok4, 'R4', 'surplus algorithm output queued as REQUESTED', fi.node,
-            'for-loop over the remaining algorithm output creates each element as REQUESTED on every path',
+            'a for-loop over the rest of the algorithm output creates each element as REQUESTED and dominates every '
+            'normal return after the hand-out',
             detail + ': surplus suggestions are dropped', construct='surplus-loop', func=fi.qualname)
 
 
